@@ -166,9 +166,9 @@ Proof.
   unfold step. simpl. rewrite Hc. apply N.eqb_neq in Hs. rewrite Hs. simpl. rewrite Hm.
   unfold to_driver. simpl. unfold become_monitor, disconnect. rewrite Hm.
   set (fs' := match fs with [] => [empty_filter] | _ => fs end).
-  set (sa1 := mkState (st_conns st) (st_next st) (st_own st) (st_rules st)
+  set (sa1 := upd st (st_conns st) (st_next st) (st_own st) (st_rules st)
                       (st_mrules st ++ map (fun f => (c, f)) fs') (st_mons st) (st_pend st)).
-  set (sb1 := mkState (filter (fun y => negb (y =? c)) (st_conns st)) (st_next st) (st_own st)
+  set (sb1 := upd st (filter (fun y => negb (y =? c)) (st_conns st)) (st_next st) (st_own st)
                       (drop_rules (st_rules st) c) (st_mrules st) (st_mons st) (st_pend st)).
   change (st_own sa1) with (st_own st). change (st_own sb1) with (st_own st).
   set (ns := owned (st_own st) c).
@@ -180,7 +180,7 @@ Proof.
   { intros x Hx. apply release_all_views; auto. apply NoDup_rev; auto. apply (own_nodup _ I). }
   destruct (release_all sa1 c ns) as [sa2 rel] eqn:Ea. destruct (release_all sb1 c (rev ns)) as [sb2 rel'] eqn:Eb.
   simpl in Ha, Hb, Va, Vb.
-  set (sa3 := mkState (st_conns sa2) (st_next sa2) (st_own sa2) (drop_rules (st_rules sa2) c) (st_mrules sa2) (st_mons sa2 ++ [c]) (st_pend sa2)).
+  set (sa3 := upd sa2 (st_conns sa2) (st_next sa2) (st_own sa2) (drop_rules (st_rules sa2) c) (st_mrules sa2) (st_mons sa2 ++ [c]) (st_pend sa2)).
   unfold noreply_items. simpl. split.
   - (* the cores *)
     subst sa3 sa2 sb2. unfold core. simpl. unfold ns. rewrite unlink_all_rev. f_equal.
@@ -204,7 +204,7 @@ Proof.
     + (* the NoReply errors are the same messages to the same callers *)
       subst sa3 sa2 sb2. simpl.
       assert (E : map erase (map (fun p => from_driver
-                     (set_pend (mkState (st_conns st) (st_next st) (unlink_all (st_own st) c ns) (drop_rules (st_rules st) c)
+                     (set_pend (upd st (st_conns st) (st_next st) (unlink_all (st_own st) c ns) (drop_rules (st_rules st) c)
                                         (st_mrules st ++ map (fun f => (c, f)) fs') (st_mons st ++ [c]) (st_pend st))
                                (drop_pending (st_pend st) c)) (p_get p) (error_msg (p_get p) (p_serial p) E_NO_REPLY))
                      (orphaned (st_pend st) c)) =
